@@ -31,7 +31,9 @@ STM = ["a = 1 <= 2", "b = 3 >= 2 > 1", "c = 1 << 2", "d = 8 >> 1 >> 1", "e = 1 <
        "import random, math as m2",
        # node lists of CPython's tree that hold None or plain strings next to nodes
        "def kw(*, a, b=2):\n    return a", "cfg = {**o, 'k': 3, 'x': 1}", "def gl():\n    global a, b\n    a = 2 + 1",
-       "def va(*args, c=1.0, **kw):\n    return len(args)", "sl = n[1:][::2]"]
+       "def va(*args, c=1.0, **kw):\n    return len(args)", "sl = n[1:][::2]",
+       # the file starts with blank lines / a comment block: every line number counts from the top of the file
+       "\n\nlead = 1 + 1", "# header\n\n\nfor z in range(3):\n    print(z < 2)"]
 PYOPS = {'==': ast.Eq, '!=': ast.NotEq, '<': ast.Lt, '<=': ast.LtE, '>': ast.Gt, '>=': ast.GtE, 'is': ast.Is,
          'is not': ast.IsNot, 'in': ast.In, 'not in': ast.NotIn, 'and': ast.And, 'or': ast.Or,
          '+': ast.Add, '-': ast.Sub, '*': ast.Mult, '/': ast.Div, '//': ast.FloorDiv, '%': ast.Mod, '**': ast.Pow,
